@@ -21,6 +21,7 @@
 void sim_block_epoll(int epfd, const char *site);
 void sim_yield_spin(const char *site);
 
+static void net_on_close(int fd);
 static int g_nkeys = 0; /* process wide: the pool's TLS key is a static of the library */
 
 /* ------------------------------------------------------------ helpers */
@@ -305,7 +306,11 @@ int sim_pthread_mutex_destroy(pthread_mutex_t *m) {
 uint64_t sim_realtime_offset(void) { return (uint64_t)S.rt_offset; }
 void sim_realtime_jump(int64_t delta_ns) { S.rt_offset += delta_ns; }
 int sim_clock_gettime(clockid_t clk, struct timespec *ts) {
-	uint64_t t = S.now;
+	uint64_t t;
+	/* reading the clock takes time: a loop that polls the clock until a limit passes must terminate even in runs
+	 * whose scheduler steps cost no simulated time */
+	S.now += 20000;
+	t = S.now;
 	switch (clk) {
 	case CLOCK_REALTIME: case CLOCK_REALTIME_COARSE: t = (uint64_t)((int64_t)S.now + S.rt_offset); break;
 	default: break;
@@ -621,6 +626,7 @@ int sim_close(int fd) {
 		if (t) { t->discarded += drain_eventfd(fd); t->closed = 1; t->armed = 0; }
 	}
 	if (kind == FDK_PIDFD) for (int i = 0; i < S.nchildren; i++) if (S.children[i].pidfd == fd) S.children[i].pidfd = -1;
+	if (kind == FDK_SOCK) net_on_close(fd);
 	sim_log("close(fd#%d kind=%d)", r->ord, kind);
 	if (sim_on_close_hook) sim_on_close_hook(fd, kind);
 	memset(r, 0, sizeof(*r));
@@ -630,6 +636,78 @@ int sim_close(int fd) {
 	sim_hash_u64(0xc105e);
 	errno = err;
 	return rc;
+}
+
+
+/* ------------------------------------------------------------ simulated network (connect side)
+ * AF_INET/AF_INET6 stream sockets of the code under test are AF_UNIX sockets underneath; connect() is answered by a
+ * table the harness fills (port -> outcome, delay). A pending connect is a socket whose send buffer the simulator
+ * pre-filled (not writable); completion drains the wire end (writable, SO_ERROR 0); refusal closes the wire end with
+ * unread data (EPOLLERR|EPOLLHUP, SO_ERROR ECONNRESET). */
+#include <netinet/in.h>
+enum { NET_NONE = 0, NET_ACCEPT, NET_REFUSE, NET_BLACKHOLE, NET_IMMEDIATE_OK, NET_IMMEDIATE_REFUSE };
+#define NET_MAX_EP   16
+#define NET_MAX_CONN 64
+static struct { int port, mode; uint64_t delay_ns; } g_net_ep[NET_MAX_EP];
+static int g_net_nep;
+typedef struct { int fd, wire, mode, port, state; uint64_t started, done_at; } net_conn_t; /* state: 1 pending, 2 completed ok, 3 refused, 4 closed */
+static net_conn_t g_net_conn[NET_MAX_CONN];
+static int g_net_nconn;
+void (*sim_on_connect_hook)(int port, int mode, uint64_t now) = NULL;
+
+void sim_net_reset(void) { g_net_nep = 0; g_net_nconn = 0; sim_on_connect_hook = NULL; }
+int sim_net_endpoint(int port, int mode, uint64_t delay_ns) {
+	if (g_net_nep >= NET_MAX_EP) return -1;
+	g_net_ep[g_net_nep].port = port; g_net_ep[g_net_nep].mode = mode; g_net_ep[g_net_nep].delay_ns = delay_ns; g_net_nep++;
+	return 0;
+}
+int sim_net_open_sockets(void) { int n = 0; for (int i = 0; i < g_net_nconn; i++) if (g_net_conn[i].state != 4) n++; return n; }
+int sim_net_conn_count(void) { return g_net_nconn; }
+static void net_complete(void *arg) {
+	net_conn_t *c = arg;
+	char buf[4096];
+	int e = errno;
+	if (c->state != 1) return;
+	if (c->mode == NET_ACCEPT) { while (read(c->wire, buf, sizeof(buf)) > 0) { } c->state = 2; sim_log("net: connect to port %d completes", c->port); }
+	else { close(c->wire); c->wire = -1; c->state = 3; sim_log("net: connect to port %d refused", c->port); }
+	S.fd_gen++;
+	errno = e;
+}
+static int net_connect(int fd, int port) {
+	int mode = NET_IMMEDIATE_REFUSE, sv[2], sz = 1024, e;
+	uint64_t delay = 0;
+	net_conn_t *c;
+	char junk[4096];
+	for (int i = 0; i < g_net_nep; i++) if (g_net_ep[i].port == port) { mode = g_net_ep[i].mode; delay = g_net_ep[i].delay_ns; }
+	if (sim_on_connect_hook) sim_on_connect_hook(port, mode, S.now);
+	if (mode == NET_IMMEDIATE_REFUSE || mode == NET_NONE) { errno = ECONNREFUSED; return -1; }
+	if (g_net_nconn >= NET_MAX_CONN) { errno = ENOBUFS; return -1; }
+	if (0 != socketpair(AF_UNIX, SOCK_STREAM | SOCK_NONBLOCK | SOCK_CLOEXEC, 0, sv)) return -1;
+	c = &g_net_conn[g_net_nconn++];
+	c->fd = fd; c->wire = sv[1]; c->mode = mode; c->port = port; c->started = S.now; c->state = 1;
+	if (mode != NET_IMMEDIATE_OK) {
+		setsockopt(sv[0], SOL_SOCKET, SO_SNDBUF, &sz, sizeof(sz));
+		memset(junk, 'c', sizeof(junk));
+		while (write(sv[0], junk, sizeof(junk)) > 0) { }
+		while (write(sv[0], junk, 1) > 0) { }
+	}
+	e = dup2(sv[0], fd);   /* the placeholder socket becomes the (pending) connection, same descriptor number */
+	close(sv[0]);
+	if (e < 0) { close(sv[1]); g_net_nconn--; return -1; }
+	fd_set_rec(sv[1], FDK_HARNESS, 0);
+	S.fd_gen++;
+	if (mode == NET_IMMEDIATE_OK) { c->state = 2; return 0; }
+	if (mode != NET_BLACKHOLE) { c->done_at = S.now + delay; sim_after(delay, net_complete, c); }
+	errno = EINPROGRESS;
+	return -1;
+}
+static void net_on_close(int fd) {
+	for (int i = 0; i < g_net_nconn; i++) {
+		net_conn_t *c = &g_net_conn[i];
+		if (c->fd != fd || c->state == 4) continue;
+		if (c->wire >= 0) { close(c->wire); memset(&S.fds[c->wire], 0, sizeof(S.fds[c->wire])); c->wire = -1; }
+		c->state = 4;
+	}
 }
 
 /* ------------------------------------------------------------ sockets: real calls + fault plan */
@@ -655,7 +733,24 @@ SOCK_SEAM(ssize_t, recvfrom, "recvfrom", (int fd, void *buf, size_t n, int flags
 SOCK_SEAM(ssize_t, recvmsg, "recvmsg", (int fd, struct msghdr *m, int flags), (fd, m, flags))
 SOCK_SEAM(ssize_t, pread, "pread", (int fd, void *buf, size_t n, off_t off), (fd, buf, n, off))
 SOCK_SEAM(ssize_t, pwrite, "pwrite", (int fd, const void *buf, size_t n, off_t off), (fd, buf, n, off))
-SOCK_SEAM(int, connect, "connect", (int fd, const struct sockaddr *sa, socklen_t sl), (fd, sa, sl))
+int sim_connect(int fd, const struct sockaddr *sa, socklen_t sl) {
+	int r, err, e;
+	sim_yield("connect");
+	e = sim_fault("connect");
+	if (e) { sim_probe("fault.connect"); errno = e; return -1; }
+	if (sa && (sa->sa_family == AF_INET || sa->sa_family == AF_INET6)) {
+		int port = (sa->sa_family == AF_INET) ? ntohs(((const struct sockaddr_in *)(const void *)sa)->sin_port) : ntohs(((const struct sockaddr_in6 *)(const void *)sa)->sin6_port);
+		r = net_connect(fd, port);
+	} else r = connect(fd, sa, sl);
+	err = errno;
+	S.fd_gen++;
+	sim_hash_u64(0xc0ec70000ull ^ (uint64_t)(r < 0 ? err : 0));
+	sim_log("connect(fd#%d) = %d%s%s", sim_fd(fd) ? sim_fd(fd)->ord : -1, r, r < 0 ? " " : "", r < 0 ? strerror(err) : "");
+	errno = err;
+	sim_yield("connect.done");
+	errno = err;
+	return r;
+}
 SOCK_SEAM(int, bind, "bind", (int fd, const struct sockaddr *sa, socklen_t sl), (fd, sa, sl))
 SOCK_SEAM(int, listen, "listen", (int fd, int backlog), (fd, backlog))
 
@@ -679,7 +774,8 @@ int sim_socket(int dom, int type, int proto) {
 	sim_yield("socket");
 	e = fault_any("socket", EMFILE);
 	if (e) { errno = e; return -1; }
-	r = socket(dom, type, proto);
+	if (dom == AF_INET || dom == AF_INET6) { sim_probe("net.inet_socket_emulated"); r = socket(AF_UNIX, type, 0); }
+	else r = socket(dom, type, proto);
 	if (r >= 0) fd_set_rec(r, FDK_SOCK, 1);
 	S.fd_gen++;
 	return r;
@@ -712,6 +808,7 @@ int sim_qwrite_fail_errno(void) { int c = sim_self(); return c >= 0 ? S.fb[c].qw
 
 /* ------------------------------------------------------------ begin/end */
 void sim_seams_begin(void) {
+	sim_net_reset();
 	sim_on_close_hook = NULL;
 	sim_on_epoll_ctl_hook = NULL;
 }
